@@ -31,8 +31,10 @@ Oracle (graph model + the numbers the branch itself reports):
    parent touches the file id (judged only where every merged change of the file is
    also in the delta of the mainline revision that merged it, no revision of the
    range deletes the file, and every revision in which the commit rule records a new
-   per-file version also shows the file in its left-hand delta - otherwise the two
-   definitions legitimately differ);
+   per-file version also shows the file in its left-hand delta, and every mainline
+   revision that shows the file in its delta either records a per-file version or
+   merges one that lies inside the range - otherwise the two definitions legitimately
+   differ);
  * every (revision, revno) that log emits equals the branch's own dotted revno, also
    for ranges whose limits are merged revisions on lines branched from merged lines
    (levels=1 there lists exactly the left-hand chain between the limits)."""
@@ -417,6 +419,14 @@ def execute(sim, plan):
             pf |= graphsim.perfile_nodes(mh, tip, f) & s0
         if pf - T:
             unfaithful = unfaithful or sorted(pf - T)
+        # a mainline revision whose delta shows the file while it carries a per-file version over from
+        # the merged side is listed by the per-file graph only as the merger of a per-file node INSIDE the
+        # range; when the carried version is older than the range (file deleted on the mainline and brought
+        # back by merging an old line) the per-file graph has nothing to show for it
+        node_mergers = {gm.merger(x, tip) for x in pf}
+        carried_from_outside = sorted(m for m in E1 if m not in pf and m not in node_mergers)
+        if carried_from_outside:
+            unfaithful = unfaithful or carried_from_outside
         if deletes or unfaithful:
             sim.probe("perfile_not_judged")
             return
